@@ -58,6 +58,35 @@ def reference(inst: Instance, mode, restrict_lca=False, canonical=False, want_se
     return opt, sols
 
 
+def leaf_move(case, inst: Instance):
+    """A second input that differs from `case` by one object leaf hosted by another species leaf (deterministic
+    choice derived from the case), or None.  Returns (leaf, target species, moved case)."""
+    sleaves = [x for x in inst.snodes if not inst.schildren[x]]
+    if len(sleaves) < 2 or not inst.oleaves:
+        return None
+    salt = sum(map(ord, case["object_tree"])) + 3 * sum(map(ord, case["species_tree"]))
+    leaf = inst.oleaves[salt % len(inst.oleaves)]
+    target = sleaves[(sleaves.index(inst.los[leaf]) + 1 + salt % (len(sleaves) - 1)) % len(sleaves)]
+    moved = {k: v for k, v in case.items() if not k.startswith("_")}
+    moved["leaf_object_species"] = dict(inst.los, **{leaf: target})
+    return leaf, target, moved
+
+
+def set_leaf_species_inplace(inp, leaf, species):
+    """inp.leaf_object_species[<leaf node>] = <species node>, on the input object itself."""
+    onode = next(n for n in inp.object_tree.traverse() if n.name == leaf)
+    snode = next(n for n in inp.species_lca.tree.traverse() if n.name == species)
+    inp.leaf_object_species[onode] = snode
+
+
+def set_costs_inplace(inp, costs):
+    from superrec2.model.reconciliation import EdgeEvent, NodeEvent
+
+    for key, value in costs.items():
+        event = getattr(NodeEvent, key) if hasattr(NodeEvent, key) else getattr(EdgeEvent, key)
+        inp.costs[event] = pkg.INFINITY if (value == INF and pkg.use_infinity_object({"costs": costs})) else value
+
+
 def validate_output(inst: Instance, out, algo, policy, prescribed_root=None):
     """V-MAP (+ V-ORD / V-UNO), finite cost, package cost == recount.
     Returns (mapping, labelling or None, recount total)."""
